@@ -3,51 +3,9 @@
    accessors look for) is built from the ABI; for EVERY prefix length each query's answer on the
    prefix is an error or equals its answer on the complete file (PrefixRel, checked on the spec),
    and each prefix is emitted as a session for replay on the crate. *)
-EXTENDS MCFile
+EXTENDS Template
 CONSTANTS Encodings          \* subset of {<<32, TRUE>>, <<32, FALSE>>, <<64, TRUE>>, <<64, FALSE>>} given as 1..4
 
-EncOf(k) == CASE k = 1 -> <<32, TRUE>> [] k = 2 -> <<32, FALSE>> [] k = 3 -> <<64, TRUE>> [] k = 4 -> <<64, FALSE>>
-
-Template(class, little) ==
-    LET symsz == CSize("sym", class) dynsz == CSize("dyn", class)
-        dynstr == <<0, 97, 98, 0, 99, 0>>
-        sym0 == Enc("sym", class, little, [st_name |-> W4(0), st_value |-> W8(0), st_size |-> W8(0), st_info |-> <<0>>, st_other |-> <<0>>, st_shndx |-> W2(0)])
-        sym1 == Enc("sym", class, little, [st_name |-> W4(1), st_value |-> W8(4660), st_size |-> W8(8), st_info |-> <<18>>, st_other |-> <<0>>, st_shndx |-> W2(6)])
-        dyn0 == Enc("dyn", class, little, [d_tag |-> W8(5), d_un |-> W8(300)])
-        dyn1 == Enc("dyn", class, little, [d_tag |-> W8(0), d_un |-> W8(0)])
-        w32(n) == IF little THEN W4(n) ELSE Rev(W4(n))
-        note == w32(2) \o w32(4) \o w32(9) \o <<88, 0, 0, 0>> \o <<1, 2, 3, 4>>
-        secs == << NullSec,
-                   Sec(<<46, 115, 104>>, 3, <<>>),                                          \* ".sh"  (section names)
-                   Sec(<<46, 100, 115>>, 3, dynstr),                                        \* ".ds"
-                   [Sec(<<46, 100, 121>>, 11, sym0 \o sym1) EXCEPT !.link = 2, !.entsize = symsz, !.info = 1],   \* ".dy"
-                   [Sec(<<46, 100>>, 6, dyn0 \o dyn1) EXCEPT !.entsize = dynsz, !.link = 2],                  \* ".d"
-                   [Sec(<<46, 110>>, 7, note) EXCEPT !.align = 4],                           \* ".n"
-                   Sec(<<46, 116>>, 1, <<144, 145, 146, 147, 148>>) >>                      \* ".t"
-        segs == << [type |-> 2, flags |-> 6, sec |-> 4, off |-> 0, filesz |-> 0, memsz |-> 0, align |-> 8],
-                   [type |-> 4, flags |-> 4, sec |-> 5, off |-> 0, filesz |-> 0, memsz |-> 0, align |-> 4] >>
-    IN BuildObj(class, little, secs, segs, [DefaultOpts EXCEPT !.shstrndx = 1])
-
-\* constant-level tables (TLC evaluates them once): the complete files, their handles, the query script with
-\* headers as the complete file declares them, and the complete file's answers
-FullF == [k \in 1..4 |-> Template(EncOf(k)[1], EncOf(k)[2])]
-EbF == [k \in 1..4 |-> Open(F(FullF[k]), "Any")]
-QsF == [k \in 1..4 |->
-         LET ff == F(FullF[k]) ebF == EbF[k] IN
-         [i \in 1..6 |-> [name |-> "section_data", shdr |-> ShdrAt(ff, ebF, i)]] \o
-         << [name |-> "section_data_as_strtab", shdr |-> ShdrAt(ff, ebF, 2)],
-            [name |-> "section_data_as_notes", shdr |-> ShdrAt(ff, ebF, 5)],
-            [name |-> "section_data_as_rels", shdr |-> ShdrAt(ff, ebF, 6)],
-            [name |-> "segment_data", phdr |-> PhdrAt(ff, ebF, 0)],
-            [name |-> "segment_data", phdr |-> PhdrAt(ff, ebF, 1)],
-            [name |-> "segment_data_as_notes", phdr |-> PhdrAt(ff, ebF, 1)],
-            [name |-> "shdrs_with_strtab"],
-            [name |-> "shdr_by_name", qname |-> <<46, 116>>],
-            [name |-> "shdr_by_name", qname |-> <<46, 100>>],
-            [name |-> "shdr_by_name", qname |-> <<46, 122>>],
-            [name |-> "symbol_table"], [name |-> "dynamic_symbol_table"], [name |-> "dynamic"],
-            [name |-> "symbol_version_table", qs |-> <<>>],
-            [name |-> "find_common_data", names |-> <<>>] >>]
 FullAns == [k \in 1..4 |-> [i \in 1..Len(QsF[k]) |-> QExp(F(FullF[k]), EbF[k], QsF[k][i])]]
 FullOpen == [k \in 1..4 |-> OpenExp(F(FullF[k]), "Any")]
 
